@@ -22,6 +22,8 @@ type Obligation struct {
 	Pos     string
 	Static  *bool // decided without solver (type facts etc.)
 	Note    string
+	NoSlice bool // use every assumption (second attempt: infeasible paths are refuted by facts unrelated to the goal)
+	fullAssumes []*Term
 	// results
 	Res *SolveResult
 }
@@ -39,6 +41,14 @@ func (lib *SpecLib) Script(o *Obligation, style string, wantModel bool) string {
 		if wantModel {
 			b.WriteString("(set-option :produce-models true)\n")
 		}
+	}
+	if !o.NoSlice {
+		if o.fullAssumes == nil {
+			o.fullAssumes = o.Assumes
+		}
+		o.Assumes = coneOfInfluence(o.fullAssumes, o.Goal)
+	} else if o.fullAssumes != nil {
+		o.Assumes = o.fullAssumes
 	}
 	roots := append([]*Term{}, o.Assumes...)
 	roots = append(roots, o.Goal)
@@ -329,4 +339,71 @@ func hasAnyBound(t *Term, cache map[*Term]bool) bool {
 	}
 	cache[t] = r
 	return r
+}
+
+// coneOfInfluence keeps the assumptions that (transitively) share an uninterpreted constant with the goal.
+// Dropping assumptions can only make an obligation harder to prove, never wrongly provable.
+func coneOfInfluence(assumes []*Term, goal *Term) []*Term {
+	if len(assumes) < 12 {
+		return assumes
+	}
+	varsOf := func(t *Term) map[*Term]bool {
+		out := map[*Term]bool{}
+		seen := map[*Term]bool{}
+		var rec func(t *Term)
+		rec = func(t *Term) {
+			if seen[t] {
+				return
+			}
+			seen[t] = true
+			if t.Op == "var" && !strings.Contains(t.Name, "!q") {
+				out[t] = true
+			}
+			for _, a := range t.Args {
+				rec(a)
+			}
+			for _, p := range t.Pat {
+				for _, a := range p {
+					rec(a)
+				}
+			}
+		}
+		rec(t)
+		return out
+	}
+	av := make([]map[*Term]bool, len(assumes))
+	for i, a := range assumes {
+		av[i] = varsOf(a)
+	}
+	rel := varsOf(goal)
+	keep := make([]bool, len(assumes))
+	for changed := true; changed; {
+		changed = false
+		for i := range assumes {
+			if keep[i] {
+				continue
+			}
+			hit := len(av[i]) == 0
+			for v := range av[i] {
+				if rel[v] {
+					hit = true
+					break
+				}
+			}
+			if hit {
+				keep[i] = true
+				changed = true
+				for v := range av[i] {
+					rel[v] = true
+				}
+			}
+		}
+	}
+	var out []*Term
+	for i, a := range assumes {
+		if keep[i] {
+			out = append(out, a)
+		}
+	}
+	return out
 }
